@@ -156,7 +156,12 @@ def correspondence(ctx):
             spent += c
             # trace = the region table (offset, length, held) after every chunk
             feed, ctor = G.pick_presentation(img.fmt, rng, 0.4)
-            pairs.append(G.Pair(img, sizes, tag, trace=len(sizes) <= 3000, poke=rng.random() < 0.3, feed=feed, ctor=ctor))
+            pr = G.Pair(img, sizes, tag, trace=len(sizes) <= 3000, poke=rng.random() < 0.3, feed=feed, ctor=ctor)
+            if rng.random() < 0.6:
+                # the bound holds at every point of the stream, also for an inspector that raised and is fed on:
+                # driver request inspk continues with the state eatChunk left, compared chunk by chunk
+                pr.after_error = 'continue'
+            pairs.append(pr)
     peak = {}
 
     def on(p, impl):
@@ -165,6 +170,8 @@ def correspondence(ctx):
         ctxv = int(G.vfield(v, 'ctx') or 0)
         peak[p.img.fmt] = max(peak.get(p.img.fmt, 0), ctxv)
         announced = [int(x) for x in re.findall(r':\d+:(\d+):(?:N|\d+):\d+:\d+:[01]', st)]
+        if p.after_error == 'continue' and ' err=' in impl.split('\t')[0] and impl.split('\t')[0].count('|') > impl.split('\t')[0].split(' err=')[0].count('|'):
+            ctx.count('corr/fed-on-after-an-error')
         if any(a > G.bound(p.img.fmt) for a in announced):
             ctx.count('corr/final-state-has-a-region-longer-than-the-bound')
         ctx.sample({'fmt': p.img.fmt, 'tag': p.img.tag, 'length': len(p.img.data), 'chunking': p.ctag,
@@ -423,9 +430,10 @@ def replay(ctx, payload):
     ae = case.get('after_error', 'stop')
     peak, k, pos = watch(fmt, data, sizes, feed, ctor, ae)
     if ae == 'continue':
-        print('the caller catches eat_chunk errors and keeps feeding the same inspector (the model run below stops at the first error)')
-    impl = G.run_insp_x(fmt, data, sizes, trace=len(sizes) <= 200, feed=feed, ctor=ctor)
-    model = ctx.driver.ask(G.insp_line(fmt, case['content'], sizes, len(sizes) <= 200))
+        print('the caller catches eat_chunk errors and keeps feeding the same inspector (model: request inspk)')
+    impl = G.run_insp_x(fmt, data, sizes, trace=len(sizes) <= 200, feed=feed, ctor=ctor, after_error=ae)
+    model = ctx.driver.ask(common.req('inspk' if ae == 'continue' else 'insp', fmt, case['content'], G.sizes_field(sizes),
+                                      1 if len(sizes) <= 200 else 0))
     print('%s(%s), %d bytes, %d chunk(s) %s, presented as %s' % (fmt, ', '.join('%s=%s' % kv for kv in sorted(ctor.items())),
                                                                len(data), len(sizes), case['sizes'][:10], feed))
     print('implementation:', impl[-1500:])
@@ -434,7 +442,7 @@ def replay(ctx, payload):
           % (peak, k, pos, G.bound(fmt), 'EXCEEDED' if peak > G.bound(fmt) else 'ok'))
     if 'sizes_a' in case or impl != model:
         print('model and implementation %s' % ('agree' if impl == model else 'DISAGREE'))
-    return 1 if (peak > G.bound(fmt) or (impl != model and ae == 'stop')) else 0
+    return 1 if (peak > G.bound(fmt) or impl != model) else 0
 
 
 LEVEL_TEXT = ('Machine-checked proof (Lean 4) over the hand-written inspector model: for every format, stream, chunking and '
